@@ -287,10 +287,19 @@ def v1_code_fee(ctx, tok, usdg, increase):
         return None
 
 
+def _note_weights(ctx, st):
+    """reach counter: a fee is computed on a market object that computed one earlier under another weight total"""
+    last = getattr(ctx, "last_tw", None)
+    if last is not None and last != st.total_weights:
+        ctx.mon.hit("v1-op-after-total-weights-changed")
+    ctx.last_tw = st.total_weights
+
+
 def v1_buy(ctx, tok, token_wei, tag=""):
     """buy_glp(tok, token_wei) with every clause checked.  Returns the OpResult (ret = GLP units)."""
     mon, m = ctx.mon, ctx.m
     st = v1_state(ctx.row, tok, ctx.tokens)
+    _note_weights(ctx, st)
     amount = Decimal(token_wei) / Decimal(10**tok.decimal)
     exp = G.add_liquidity(st, token_wei)
     path = G.fee_path(st.usdg_amount, exp["usdg"], st.target, True)
@@ -375,6 +384,7 @@ def v1_buy(ctx, tok, token_wei, tag=""):
 def v1_sell(ctx, tok, glp_wei, all_=False, tag=""):
     mon, m = ctx.mon, ctx.m
     st = v1_state(ctx.row, tok, ctx.tokens)
+    _note_weights(ctx, st)
     held_before = F(m.glp_amount)
     if all_:
         glp_wei_f = held_before * 10**18
@@ -1199,7 +1209,7 @@ def floors(merged, tier):
     scale = 3 if tier == "quick" else 200  # ~10x under what the workload normally reaches
     for name, need in (("buy_glp", 100), ("sell_glp", 100), ("deposit", 100), ("withdraw", 100), ("v1_round_trip", 40),
                        ("v2_round_trip", 40), ("oversell_glp", 5), ("overdraw_gm", 5), ("reward_checked_with_holding", 10),
-                       ("v1_actuator_runs", 2), ("v2_actuator_runs", 2)):
+                       ("v1_actuator_runs", 2), ("v2_actuator_runs", 2), ("v1-op-after-total-weights-changed", 30)):
         if reach.get(name, 0) < need * scale:
             out.append(f"{name} reached {reach.get(name, 0)} times (< {need * scale})")
     cl = merged["classes"]
